@@ -21,6 +21,8 @@ def alphabet(*cols):
 
 
 A6 = alphabet(*G.SIGMA6)
+A7 = alphabet(*G.SIGMA6, G.C13RAD)  # incl. an atom carrying isotope AND radical label
+A5 = alphabet(G.C, G.H, G.C13, G.CRAD, G.C13RAD)
 A4 = alphabet(*G.SIGMA4)
 A3 = alphabet(*G.SIGMA3)
 A2 = alphabet(G.C, G.O)
@@ -58,18 +60,19 @@ def _shard_size(key):
 
 
 QUICK_SPACES = [
-    (1, A6, None),
-    (2, A6, None),
-    (3, A6, None),
-    (4, A4, None),
+    (1, A7, None),
+    (2, A7, None),
+    (3, A7, None),
+    (4, A5, None),
     (5, A3, None),
     (6, A1, None),
     (6, alphabet(G.C, G.C13), 1),
     (6, alphabet(G.C, G.CRAD), 1),
 ]
 THOROUGH_SPACES = QUICK_SPACES + [
-    (4, A6, None),
+    (4, A7, None),
     (5, A6, None),
+    (5, alphabet(G.C, G.C13RAD, G.O), None),
     (6, A2, None),
     (6, A6, 2),
     (7, A1, None),
@@ -203,12 +206,13 @@ def run_shard(job):
                 res["nontrivial"] += len(orb)
             if "C13" in props:
                 _c13_root(n, st0, root_out, vios, res)
+            targets = [st0] if last in (None, st0) else [st0, last]
             if "C01" in props:
-                targets = [st0] if last in (None, st0) else [st0, last]
-                if n <= 3:
-                    targets = list(orb)
-                for st in targets:
+                for st in (list(orb) if n <= 3 else targets):
                     _c01_listing(n, st, root_out["s"], opts.get("listing_d", 1), vios, res)
+            if props & {"C01", "C04", "C13"}:
+                for st in (list(orb) if n <= 4 else targets):
+                    _derived(n, st, root_out, props, vios, res)
             if "C12" in props:
                 _c12_histories(n, st0, vios, res)
             res["orbits"].append((st0, root_out["s"], len(orb), orbit_nontrivial))
@@ -284,6 +288,53 @@ def _c01_listing(n, st, expect, d, vios, res):
                 "kind": "e1-listing", "n": n, "state": st, "bonds": l, "molfile_b": text,
                 "tucan_a": expect, "tucan_b": s,
                 "summary": f"bond listing/orientation changes the string: {expect!r} vs {s!r}"}))
+
+
+# -- graph-level descriptions derived with the networkx API ------------------------------------------------
+def _derived(n, st, root_out, props, vios, res):
+    """Other descriptions of the same molecule at the graph level: the canonical graph itself (re-canonicalize),
+    nx.relabel_nodes renumberings (iteration order != label order), a graph with reversed node insertion order."""
+    import networkx as nx
+    from tucan.canonicalization import canonicalize_molecule
+    from tucan.serialization import serialize_molecule
+
+    g, gc, s, text = pipeline(n, st)
+    variants = []
+    variants.append(("recanonicalize", lambda: gc))
+    if n >= 2:
+        variants.append(("relabel-canonical", lambda: nx.relabel_nodes(gc, {k: (k + 1) % n for k in range(n)}, copy=True)))
+        variants.append(("relabel-input", lambda: nx.relabel_nodes(g, {0: n - 1, n - 1: 0}, copy=True)))
+
+        def rev():
+            h = nx.Graph()
+            h.add_nodes_from(reversed(list(g.nodes(data=True))))
+            h.add_edges_from(reversed(list(g.edges(data=True))))
+            return h
+        variants.append(("reversed-insertion", rev))
+    for name, mk in variants:
+        res["transitions"] += 1
+        try:
+            h = mk()
+            hc = canonicalize_molecule(h)
+            sig = canon_signature(hc)
+            s2 = serialize_molecule(hc)
+        except Exception as ex:
+            vios.append((f"derived|{name}|exc", {"kind": "e1-derived", "n": n, "state": st, "variant": name,
+                                                 "summary": f"{name}: raised {type(ex).__name__}: {ex}"}))
+            continue
+        res["exec"] += 1
+        res["derived_exec"] = res.get("derived_exec", 0) + 1
+        if "C01" in props and s2 != root_out["s"]:
+            vios.append((f"C01|derived|{name}", {"kind": "e1-derived", "n": n, "state": st, "variant": name, "molfile": text,
+                                                 "summary": f"{name}: string {s2!r} != {root_out['s']!r}"}))
+        if "C04" in props and sig != root_out["sig"]:
+            vios.append((f"C04|derived|{name}", {"kind": "e1-derived", "n": n, "state": st, "variant": name, "molfile": text,
+                                                 "summary": f"{name}: canonical graph differs from the one of the molfile description"}))
+        if "C13" in props and sig[0] != "BADNODES" and root_out["sig"][0] != "BADNODES" and \
+                [x[3] for x in sig[0]] != [x[3] for x in root_out["sig"][0]]:
+            vios.append((f"C13|derived|{name}", {"kind": "e1-derived", "n": n, "state": st, "variant": name, "molfile": text,
+                                                 "summary": f"{name}: partition classes by canonical position differ: "
+                                                            f"{[x[3] for x in sig[0]]} vs {[x[3] for x in root_out['sig'][0]]}"}))
 
 
 # -- C13 -------------------------------------------------------------------------------------------
@@ -416,6 +467,24 @@ def _c12_histories(n, st0, vios, res):
     chgs = [(i % 3) - 1 for i in range(n)]
     btypes = [1 + (j % 4) for j in range(len(bonds))]
     text = G.render_v3000(n, resolve(colors), bonds, xs, chgs, btypes)
+    # the same labelled skeleton drawn with other non-identity data, canonicalized right after the first drawing:
+    # the second result must carry the second drawing's charges, bond types and coordinates
+    chgs2 = [1 - (i % 3) for i in range(n)]
+    btypes2 = [4 - (j % 4) for j in range(len(bonds))]
+    text2 = G.render_v3000(n, resolve(colors), bonds, xs, chgs2, btypes2)
+    head, rest = text2.split("M  V30 BEGIN ATOM\n")
+    atoms_part, tail = rest.split("M  V30 END ATOM\n")
+    text2 = head + "M  V30 BEGIN ATOM\n" + atoms_part.replace(" 0 0 0", " 2.5 -1 0") + "M  V30 END ATOM\n" + tail
+    m_first = graph_from_molfile_text(text)
+    canonicalize_molecule(m_first)
+    m_second = graph_from_molfile_text(text2)
+    sub = []
+    _c12_state(n, st0, m_second, None, serialize_molecule(canonicalize_molecule(m_second)), sub, res)
+    for key, case in sub:
+        case = dict(case)
+        case["kind"] = "e1-history"
+        case["summary"] = "second drawing of the same skeleton, canonicalized after the first: " + case["summary"]
+        vios.append((key + "|second-drawing", case))
     ref_m = graph_from_molfile_text(text)
     ref_mc = canonicalize_molecule(ref_m)
     ref_sig = snapshot(ref_mc)
